@@ -107,7 +107,9 @@ def ref_keep(rows, statements):
 def gen_catalog(r, n):
     pool_t = sorted(int(x) for x in r.integers(-2000000000000, 4000000000000, 6))
     pool_t = [t - t % 1000 + int(r.choice([0, 1, 500, 999])) for t in pool_t]
-    pools = {"lat": numpy.round(r.uniform(-60, 60, 5), 1), "lon": numpy.round(r.uniform(-170, 170, 5), 1),
+    if r.uniform() < 0.3:
+        pool_t[int(r.integers(0, 6))] = 0          # the epoch instant itself; zero is a legitimate value for every field
+    pools = {"lat": numpy.append(numpy.round(r.uniform(-60, 60, 4), 1), 0.0), "lon": numpy.append(numpy.round(r.uniform(-170, 170, 4), 1), 0.0),
              "dep": numpy.array([0.0, 5.0, 10.0, 33.0, 70.5]), "mag": numpy.array([4.0, 4.95, 5.0, 5.05, 6.1, 7.0])}
     ev = []
     for i in range(n):
